@@ -1872,7 +1872,7 @@ impl Tree {
     ) -> Result<NodeId, TreeError> {
         // Check that nodes are siblings
         let parent = self.get(child1)?.parent;
-        if parent != self.get(child2)?.parent {
+        if parent != self.get(child2)?.parent || child1 == child2 {
             return Err(TreeError::MergingNonSiblingNodes(*child1, *child2));
         }
 
